@@ -322,6 +322,8 @@ func cmdCheck(args []string) {
 		report("no-obligations", "no obligations were generated for property "+*prop+" (vacuity guard)\n", true)
 	}
 	sort.Strings(fnsUnder)
+	// bounded stand-ins for functions whose contract is only assumed (never counted as proved)
+	bounded := runBounded(*prop, *verifDir, *repo, func(name, body string) { report(name, body, false) })
 	wall := time.Since(t0).Seconds()
 
 	// evidence
@@ -368,6 +370,7 @@ func cmdCheck(args []string) {
 				"load_s":                    round2(loadT),
 				"vcgen_s":                   round2(genT),
 				"fixed_findings_recorded":   fixed,
+				"bounded":                   bounded,
 			},
 			"assumptions": append([]string{
 				"T2: go/packages, go/types, go/ssa represent the compiled program; SMT solvers are sound; govc itself",
